@@ -12,10 +12,10 @@ Rates are exact rationals (`Rate`); `Rate.Finite` = not 0/0, `Rate.InUnit` = in 
 Rust's floating point arithmetic and number formatting are not modelled: that the printed figure is
 within the printed precision of the exact rate is checked by the correspondence run.
 
-Three statements of the property are FALSE of the code (and of the model that follows it); each has a
+Two statements of the property are FALSE of the code (and of the model that follows it); each has a
 `…_stmt`, a proved `…_false` from a closed witness and a `…_partial` under the guard the witness
-violates:
-* markdown prints `NaN%` (0/0) for a file without lines and for a report without lines;
+violates (a third one, markdown's `NaN%` for a file or a report without lines, was fixed in /repo
+6c25d0d: `C13_markdown_finite` is now proved at full strength):
 * ade prints `null` (0/0) for every part without lines;
 * the HTML page of the directory `""` (files directly under the source root) is written to
   `<output>/index.html` and replaces the global index, so `index.html` no longer shows the totals
@@ -277,51 +277,48 @@ theorem C13_html_badge_same_totals_partial (rs : List FileIn)
 /-! ## markdown -/
 
 /-- a row's `covered / total` are the lines with a count > 0 and the lines of the record; the
-percentage is 100·covered/total -/
+percentage is in [0,100], equal to 100·covered/total, and 100 when the file has no lines -/
 theorem C13_markdown_row (c : Cov) :
     (mdRow c).total = c.lines.length ∧ (mdRow c).covered = countPos c.lines ∧
     (mdRow c).covered ≤ (mdRow c).total ∧
-    (mdRow c).rate.InPercent ∧ (mdRow c).rate.IsPercent (mdRow c).covered (mdRow c).total := by
+    (mdRow c).rate.InPercent ∧
+    ((mdRow c).total ≠ 0 → (mdRow c).rate.IsPercent (mdRow c).covered (mdRow c).total) ∧
+    ((mdRow c).total = 0 → (mdRow c).rate = ⟨100, 1⟩) := by
   obtain ⟨h1, h2, h3, h4⟩ := mdRow_props c
-  refine ⟨h1, h2, h3, ?_, ?_⟩
-  · rw [h4]; have := countPos_le c.lines; simp [Rate.InPercent]; omega
-  · rw [h4, h1, h2]; simp [Rate.IsPercent, Nat.mul_comm]
+  have hp := mdPercent_props (countPos c.lines) c.lines.length (countPos_le _)
+  rw [h4, h1, h2]
+  exact ⟨rfl, rfl, countPos_le _, hp.2.1, hp.2.2.1, hp.2.2.2⟩
 
-/-- the total percentage is 100·(Σ covered)/(Σ total) over the rows, in [0,100] -/
+/-- the total percentage is computed from Σ covered and Σ total over the rows: in [0,100], equal to
+100·(Σ covered)/(Σ total), and 100 when no file has a line -/
 theorem C13_markdown_total_sum (rs : List FileIn) :
     (markdown rs).totalLines = ((markdown rs).rows.map (·.total)).sum ∧
     (markdown rs).totalCovered = ((markdown rs).rows.map (·.covered)).sum ∧
     (markdown rs).totalCovered ≤ (markdown rs).totalLines ∧
     (markdown rs).rate.InPercent ∧
-    (markdown rs).rate.IsPercent (markdown rs).totalCovered (markdown rs).totalLines := by
+    ((markdown rs).totalLines ≠ 0 →
+      (markdown rs).rate.IsPercent (markdown rs).totalCovered (markdown rs).totalLines) ∧
+    ((markdown rs).totalLines = 0 → (markdown rs).rate = ⟨100, 1⟩) := by
   obtain ⟨h1, h2, h3, h4⟩ := markdown_totals rs
-  refine ⟨h1, h2, h3, ?_, ?_⟩
-  · rw [h4]; simp [Rate.InPercent]; omega
-  · rw [h4]; simp [Rate.IsPercent, Nat.mul_comm]
+  have hp := mdPercent_props _ _ h3
+  rw [h4]
+  exact ⟨h1, h2, h3, hp.2.1, hp.2.2.1, hp.2.2.2⟩
 
-/-- Full statement: every percentage of the markdown report is a number. -/
-def C13_markdown_finite_stmt : Prop :=
-  ∀ rs : List FileIn,
-    (markdown rs).rate.Finite ∧ ∀ row ∈ (markdown rs).rows, row.rate.Finite
-
-/-- false: the empty report has the total 0/0 (`NaN%`) -/
-theorem C13_markdown_finite_false : ¬ C13_markdown_finite_stmt := by
-  intro h
-  have := (h []).1
-  revert this
-  decide
-
-/-- it holds for every row with at least one line, and for the total when some file has a line -/
-theorem C13_markdown_finite_partial (rs : List FileIn) :
-    ((markdown rs).totalLines ≠ 0 → (markdown rs).rate.Finite) ∧
-    ∀ row ∈ (markdown rs).rows, row.total ≠ 0 → row.rate.Finite := by
+/-- every percentage of the markdown report – each row and the total line – is a number in
+[0,100], for every result set: the empty report and files without lines included -/
+theorem C13_markdown_finite (rs : List FileIn) :
+    ((markdown rs).rate.Finite ∧ (markdown rs).rate.InPercent) ∧
+    ∀ row ∈ (markdown rs).rows, row.rate.Finite ∧ row.rate.InPercent := by
   refine ⟨?_, ?_⟩
-  · intro h; rw [(markdown_totals rs).2.2.2]; exact h
-  · intro row hrow h
+  · obtain ⟨_, _, h3, h4⟩ := markdown_totals rs
+    have hp := mdPercent_props _ _ h3
+    rw [h4]; exact ⟨hp.1, hp.2.1⟩
+  · intro row hrow
     rw [markdown_rows, List.mem_map] at hrow
     obtain ⟨r, _, rfl⟩ := hrow
-    obtain ⟨h1, _, _, h4⟩ := mdRow_props r.cov
-    rw [h4]; rw [h1] at h; exact h
+    obtain ⟨_, _, _, h4⟩ := mdRow_props r.cov
+    have hp := mdPercent_props (countPos r.cov.lines) r.cov.lines.length (countPos_le _)
+    rw [h4]; exact ⟨hp.1, hp.2.1⟩
 
 /-! ## ade -/
 
@@ -403,5 +400,10 @@ example : (∃ t, covdir exRs = .ok t ∧ t.stats = ⟨4, 2, 2⟩ ∧ t.stats.pe
     (lcovRec exCov1).fn = some (2, 1) ∧ (lcovRec exCov1).brf = 3 ∧ (lcovRec exCov1).lh = 2 := by
   refine ⟨⟨_, rfl, by decide, by decide⟩, ⟨_, rfl, by decide⟩, by decide, by decide, by decide,
     by decide, by decide, by decide⟩
+
+/-- the former `NaN%` witnesses: the empty report, and one file without lines, now give 100 -/
+example : (markdown []).rate = ⟨100, 1⟩ ∧
+    (markdown [⟨true, true, [[97]], [], {}⟩]).rows = [⟨0, 0, ⟨100, 1⟩⟩] ∧
+    (markdown [⟨true, true, [[97]], [], {}⟩]).rate = ⟨100, 1⟩ := by decide
 
 end Grcov.Props.C13
